@@ -305,7 +305,8 @@ def check(col: Collector, tier: str):
             any((not tr_) and src(t) == "spec.cpp_return_is_collection" for t, tr_ in guards(bc.node, val[0], pmb2))
         for l in lams:
             s = src(l.body)
-            ok = ok and "unique_name(spec.name)" in s and "scope=scope" in s and "spec.cpp_return_type" in s
+            made = l.body if isinstance(l.body, ast.Call) else None
+            ok = ok and "unique_name(spec.name)" in s and made is not None and src(arg(made, 1, "scope")) == "scope" and "spec.cpp_return_type" in s
         ok = ok and "ctyp.collection(ctyp.terminal(spec.cpp_return_type))" in src(coll[0].body) if coll else False
     col.add("C11.R8", bc.short, "per-use-result-variable-of-the-declared-type", bool(ok),
             "result_rep must be a lambda creating, per use, unique_name(spec.name) typed terminal(return type) - wrapped in a collection iff cpp_return_is_collection", bc.loc)
